@@ -146,14 +146,31 @@ def first_entries():
     return {k[1]: v[0] for k, v in lookup.by_key().items() if k[0] == "DE"}
 
 
+def listed_methods():
+    """bank code -> set of methods named by its registry records (the statement speaks of the bank code
+    being listed with a method, not of a particular record)."""
+    out = {}
+    for k, v in lookup.by_key().items():
+        if k[0] == "DE":
+            out[k[1]] = {e["checksum_algo"] for e in v if e.get("checksum_algo")}
+    return out
+
+
 def run_api(shard, mon, S):
     algos = lib_methods(S) or {}
     sz = SIZES[shard["tier"]]
     first = first_entries()
+    named = listed_methods()
     table = data.countries()
     for code in shard["codes"]:
         entry = first[code]
-        m = entry.get("checksum_algo", "default")
+        ms = named.get(code, set())
+        if len(ms) > 1:
+            mon.tally("bank_codes_with_conflicting_methods_skipped")
+            continue
+        m = next(iter(ms)) if ms else "default"
+        if entry.get("checksum_algo", "default") != m:
+            mon.tally("first_record_without_the_method")
         implemented = ("DE:" + m) in algos
         rng = env.rng("C07api", code)
         if not R.matches_spec("8!n", code):
@@ -177,8 +194,10 @@ def run_api(shard, mon, S):
                 mon.viol(f"api_failure_class:{o.exc_name}", w, "InvalidBBANChecksum", o.brief())
             if o.ok:
                 bank = o.value.bank
-                if bank is None or bank.get("checksum_algo", "default") != m:
-                    mon.viol("api_bank_entry_not_first_in_file_order", w, m, repr(bank)[:200])
+                if bank is None or bank != entry:
+                    mon.viol("api_bank_entry_not_first_in_file_order", w, entry, repr(bank)[:200])
+            if a is accs[0]:
+                judge.repeated_validation_consistent(mon, text, o, w)
             if want == R.DONT_CARE:
                 mon.tally("api_dont_care")
                 continue
